@@ -21,6 +21,12 @@ CLAIMED = {
  "C14": dict(section="5/C14", technique="Lean 4 theorems (refinement of the pair list to an ordered multimap keyed by the case-normalised name; UTF-8/latin-1 round trip from core's utf8Decode?_utf8Encode) + differential correspondence after every step",
     text="Proof: per-operation refinement lemmas (getItem/getAll/delItem/addHeader/setItem/add commute with the abstraction to a key-normalised multimap) and the user-level corollaries (case-insensitive lookups, assignment/deletion affect all entries of the name and nothing else with order preserved, add refuses duplicates except Set-Cookie in any casing, insertion order) for every state, hence after every operation sequence; C14_transcode_bytes/roundtrip for every Unicode string. Tied to headers.py by op-sequence correspondence with the items compared after every step, plus an independent reference multimap as oracle.",
     note="Trusted: Lean kernel, model Poor.Headers (+ wsgiref _formatparam), harness/c14.py. Names are US-ASCII tokens as the class requires (str.lower modelled as ASCII lower-casing); lone surrogates are outside the model."),
+ "C15": dict(section="5/C15", technique="translator (Python ast -> page templates + escape table, regenerated every run) + Lean 4 theorems (escape_safe; post_sound by induction over the rendering relation; decide +kernel over the generated templates) + template conformance + html.parser marker search",
+    text="Proof: C15 — for every built-in page template extracted from results.py, every debug setting, every content of every request-derived hole (escaped through the generated table) and every loop count, no client-controlled character is read inside a tag or changes the tokenizer state (post_sound + pages_safe over Gen.Pages, escape_safe over Gen.Escape). The templates are regenerated from the source on every run, so removing an html_escape or adding a raw request-derived hole breaks the decide obligation; real pages are matched against the templates (conformance) and searched with marker payloads.",
+    note="Trusted: Lean kernel; translator/pages.py incl. its taint tables (fails closed: unknown expressions are tainted/raw); the 4-state lexical HTML model (no comments/raw-text; checked against html.parser dynamically); trusted server-side holes assumed free of < > \" '."),
+ "C20": dict(section="5/C20", technique="translator (debug guards and diagnostic holes of the page templates) + Lean 4 theorems (diagFree_sound by induction over renderings; decide +kernel over generated templates; debug precedence) + secret-token search on the real application",
+    text="Proof: debug_precedence (override decides when non-empty, any letter case), C20_pages (with debug off no rendering of any ungated built-in page contains a character from a diagnostic hole), over templates regenerated from results.py each run; the dispatcher gate for /debug-info is covered by the request model (C20_route, once PoorModel.Wsgi is linked) and exercised on the implementation with secret tokens at every failure position, via request environ and process environment.",
+    note="Trusted: Lean kernel; translator's diagnostic classification (handler[...], traceback lines, exc_*, server_software, uri_rule) and guard extraction; Poor.Debug.effectiveDebug; ASCII lower-casing for the 'on' comparison."),
 }
 
 def check(pid):
